@@ -4,12 +4,13 @@
    (compared by the harness after renaming back).  The renamed call is also run through
    the model of its kind, so the model's own equivariance is sampled on the same inputs. *)
 From Coq Require Import List Bool ZArith QArith String.
-From XV Require Import Base.Res Base.CorrUtil Corr.Eval_C01 Corr.Eval_C09 Corr.Eval_C11 Corr.Eval_C08.
+From XV Require Import Base.Res Base.CorrUtil Corr.Eval_C01 Corr.Eval_C09 Corr.Eval_C11 Corr.Eval_C08 Corr.Eval_C05.
 Import ListNotations.
 
 Inductive case13 : Type :=
 | K13_op (same : bool) (ren : case01)
 | K13_cumsum (same : bool) (ren : case09)
+| K13_faces (same : bool) (ren : case05)
 | K13_ufunc (same : bool) (ren : case11)
 | K13_transform (same : bool) (ren : case08)
 | K13_other (same : bool).
@@ -18,6 +19,7 @@ Definition check13 (c : case13) : bool * bool * bool :=
   match c with
   | K13_op same ren => let '(s, m, a) := check01 ren in (same, s && m, a)
   | K13_cumsum same ren => let '(s, m, a) := check09 ren in (same, s && m, a)
+  | K13_faces same ren => let '(s, m, a) := check05 ren in (same, s && m, a)
   | K13_ufunc same ren => let '(s, m, a) := check11 ren in (same, s && m, a)
   | K13_transform same ren => let '(s, m, a) := check08 ren in (same, s && m, a)
   | K13_other same => (same, true, true)
